@@ -14,7 +14,7 @@ def gen_inputs(seed, count, path):
         "SELECT /* c ; */ 1; SELECT 2", "SELECT 'unterminated", "SELECT $a$ never closed", "SELECT 1\x00SELECT 2", "", ";", " ",
         "SELECT x'4142', b'0101', 0x1f, 1e5, 1_000, db.03_t.c FROM db.03_t", "SELECT {p:UInt8}, @@v, a->b, a<=>b, a::Int8",
         "SELECT '" + "é" * 3000 + "'", "SELECT $t$" + "x" * 5000 + "$t$", "SELECT $t$" + "y" * 9000 + "$t$, 1", "SELECT " + ", ".join(str(i) for i in range(1500)),
-        "SELECT 1 /* " + "c" * 4090 + " */ , 2", "SELECT " + " " * 4094 + "'é'", "\xef\xbb\xbfSELECT 1", "SELECT \xff 1",
+        "SELECT 1 /* " + "c" * 4090 + " */ , 2", "\ufeffSELECT (1", "\ufeffSELECT 1 +", "\ufeff) SELECT 1", "\u00a0SELECT FROM", "\ufeff\nSELECT (", "SELECT " + " " * 4094 + "'é'", "\xef\xbb\xbfSELECT 1", "SELECT \xff 1",
     ]
     out = []
     for s in special:
